@@ -561,6 +561,23 @@ func buildTargets() []*target {
 				}
 				return used(func() string { return useReflected(p, "decoded") })
 			}})
+		// the same decoder with a destination that already holds data (a
+		// variable decoded into before: maps populated, slices allocated) -
+		// code paths that replace or grow existing containers
+		if len(c) == 1 {
+			sampleEnc := c[0]
+			add(&target{entry: "reflect-decoder", sub: rt.name + "/populated-destination", binary: true, corpus: items(rt.name, c...),
+				run: func(in []byte) outcome {
+					p := reflect.New(rt.typ)
+					if err := encoding.NewDecoder(encoding.DefaultCap(), bytes.NewReader(sampleEnc)).Decode(p.Interface()); err != nil {
+						return res(nil) // the sample itself is refused: the fresh-destination target reports it
+					}
+					if err := encoding.NewDecoder(encoding.DefaultCap(), bytes.NewReader(in)).Decode(p.Interface()); err != nil {
+						return res(err)
+					}
+					return used(func() string { return useReflected(p, "decoded twice") })
+				}})
+		}
 	}
 	// 8. generated argument decoders through Receive
 	objCorpus := map[uint32][][]byte{
